@@ -24,6 +24,13 @@ def run(ctx):
         t = ctx.drive(["c05", "-in", sp], out_name="c05.ndjson")
         ev = vlib.read_ndjson(t)
         vd = ctx.judge("Trace_C05", t, parallel=10, xmx="3g", timeout=3000)
+        # configurations: what Create writes must not depend on GOMAXPROCS (large coding matrices, odd block counts)
+        parts = [(ev, vd)]
+        for procs in ((3, 5, 7, 12) if ctx.thorough else (3, 7)):
+            t2 = ctx.drive(["c05", "-mode", "procs"], out_name="c05-procs%d.ndjson" % procs, env_extra={"GOMAXPROCS": str(procs)})
+            parts.append((vlib.read_ndjson(t2), ctx.judge("Trace_C05", t2, parallel=4, xmx="3g", timeout=3000)))
+        from checks import archive
+        ev, vd = archive.combine(*parts)
         obs = [v for v in vd if v["clause"].startswith("OBS.")]
         if obs:
             raise vlib.Inconclusive("observer order wrong: %s" % obs[:2])
